@@ -41,8 +41,23 @@ func newEvalNode(et *ExecutingTask, n *pipeline.EvalNode, d NodeDiagnostic) (*Ev
 			return nil, fmt.Errorf("Failed to compile %v expression: %v", i, err)
 		}
 		en.expressions[i] = statefulExpr
+		// The results of earlier expressions take precedence over fields
+		// and tags of the same name, so do not fill those from the point.
 		refVars := ast.FindReferenceVariables(lambda.Expression)
-		en.refVarList[i] = refVars
+		filtered := make([]string, 0, len(refVars))
+		for _, ref := range refVars {
+			shadowed := false
+			for _, as := range n.AsList[:i] {
+				if as == ref {
+					shadowed = true
+					break
+				}
+			}
+			if !shadowed {
+				filtered = append(filtered, ref)
+			}
+		}
+		en.refVarList[i] = filtered
 	}
 	// Create a single pool for the combination of all expressions
 	en.scopePool = stateful.NewScopePool(ast.FindReferenceVariables(expressions...))
